@@ -62,6 +62,38 @@ def jacobian_parity_obligation(cfg, group):
     return lambda pkg: run_obligation(pkg, fn)
 
 
+def jacobian_follows_error_parity_obligation(cfg, group):
+    """Whatever negating the quaternion of `group` does to each error component (e_i -> s_i e_i, s_i = +-1), it must do the same to
+    that component's row of every Jacobian: the Jacobians are the derivative of the error *of the edge as it is*, so an edge whose
+    measurement is stored as -q linearises the error it actually reports (otherwise gradient and error disagree for one of the
+    two representations of the same rotation, and the optimum depends on the sign)."""
+    def fn(it):
+        p1, p2, z, off = sym_config(cfg, unit=True)
+        e = make_edge(it, cfg, p1, p2, z, off)
+        err = it.call_method(e, "calc_error", [])
+        J = it.call_method(e, "calc_jacobians", [])
+        en = negated_edge(it, cfg, p1, p2, z, off, group)
+        err_n = it.call_method(en, "calc_error", [])
+        Jn = it.call_method(en, "calc_jacobians", [])
+        rows = 0
+        for i, (a, b) in enumerate(zip(err.data, err_n.data)):
+            sgn = 1 if b == a else (-1 if b == -a else None)
+            if sgn is None:
+                continue
+            for k in (0, 1):
+                if not (isinstance(J[k], Arr) and isinstance(Jn[k], Arr) and J[k].shape == Jn[k].shape):
+                    raise ObFail("Jacobian shapes change when the quaternion of %s is negated" % group)
+                if (group, k) in (("p1", 0), ("p2", 1)):
+                    continue          # w.r.t. the negated vertex itself the tangent coordinates flip too: covered by C01 / C10
+                if any(y != (x if sgn == 1 else -x) for x, y in zip(J[k].data[i], Jn[k].data[i])):
+                    raise ObFail("negating the quaternion of %s multiplies error component %d by %+d but not row %d of the Jacobian w.r.t. "
+                                 "vertex %d: for one of the two signs the Jacobian is not the derivative of the reported error" % (
+                                     group, i, sgn, i, k))
+                rows += 1
+        return dict(rows=rows)
+    return lambda pkg: run_obligation(pkg, fn)
+
+
 # ------------------------------------------------------------------------------------------------ C08-b 2*pi periodicity
 def periodicity_obligation(cfg):
     def fn(it):
@@ -285,6 +317,9 @@ def run(run_, pkg, tier):
             key = "C08-d/%s/parity(%s.q)" % (cfg_name(cfg), name)
             if run_.wants(key):
                 tasks.append((key, "C08-d-quaternion-sign", parity_obligation(cfg, name), w))
+            key = "C08-d/%s/jacobian-follows-error-parity(%s.q)" % (cfg_name(cfg), name)
+            if run_.wants(key):
+                tasks.append((key, "C08-d-quaternion-sign", jacobian_follows_error_parity_obligation(cfg, name), w))
             if ec == "EdgeLandmark":
                 key = "C08-d/%s/jacobian-parity(%s.q)" % (cfg_name(cfg), name)
                 if run_.wants(key):
